@@ -46,6 +46,11 @@ ZONES = sorted(pytz.all_timezones)
 _CANDS = {}
 
 
+def decoy():
+    from mc.lib import decoy as decoy_mod
+    decoy_mod.classification().close()
+
+
 def BOUND(tier):
     return {
         'quick': 'all %d zones; every transition 1900-2037 at 7 offsets; '
@@ -125,7 +130,8 @@ def stamp_space(tier):
         when, near = candidates(ZONES[zi], tier)[k]
         return {'kind': 'stamp', 'zone': ZONES[zi],
                 'text': when.strftime(FMT), 'near_transition': near}
-    return Space('generate_timestamped_rows/all zones', len(index), decode)
+    return Space('generate_timestamped_rows/all zones', len(index), decode,
+                 decoy_every=20000)
 
 
 def dst_zones(tier):
